@@ -42,6 +42,7 @@ fn main() {
     let args: Vec<String> = std::env::args().skip(1).collect();
     if args.is_empty() { eprintln!("usage: replay <scenario> ..."); std::process::exit(2); }
     let r = std::panic::catch_unwind(|| match args[0].as_str() {
+        "chartable" => chartable(&args[1..]),
         "line" => data::line(&args[1..]),
         "linety" => data::linety(&args[1..]),
         "list" => data::list(&args[1..]),
@@ -67,3 +68,25 @@ fn main() {
 }
 
 pub fn args_bytes(a: &[String]) -> Vec<Vec<u8>> { a.iter().map(|s| unhex(s)).collect() }
+
+
+/// chartable : ranges (inclusive, hex) of the scalar values below U+10000 for which std's char predicates hold - the
+/// interpreter's model of `char::is_alphabetic` etc. is generated from this, so it is exactly what the compiled code does.
+fn chartable(_a: &[String]) {
+    type P = fn(&char) -> bool;
+    let preds: [(&str, P); 7] = [("alphabetic", |c| c.is_alphabetic()), ("alphanumeric", |c| c.is_alphanumeric()), ("numeric", |c| c.is_numeric()),
+        ("whitespace", |c| c.is_whitespace()), ("uppercase", |c| c.is_uppercase()), ("lowercase", |c| c.is_lowercase()), ("control", |c| c.is_control())];
+    for (name, p) in preds {
+        let mut out = Vec::new();
+        let mut start: Option<u32> = None;
+        for cp in 0u32..=0x10000 {
+            let holds = cp < 0x10000 && char::from_u32(cp).map(|c| p(&c)).unwrap_or(false);
+            match (holds, start) {
+                (true, None) => start = Some(cp),
+                (false, Some(s)) => { out.push(format!("{:x}-{:x}", s, cp - 1)); start = None; }
+                _ => {}
+            }
+        }
+        println!("{}={}", name, out.join(","));
+    }
+}
